@@ -1,4 +1,4 @@
-CONSTANTS Strict = FALSE  JudgeEvaluator = TRUE
+CONSTANTS Strict = FALSE  Mode = "evaluator"
 INIT TraceInit
 NEXT TraceNext
 POSTCONDITION AllConsumed
